@@ -1,0 +1,28 @@
+//go:build verif
+
+package operator
+
+import (
+	"time"
+
+	"reduction.dev/reduction/partitioning"
+)
+
+// Accessors for the verification harness (build tag verif only).
+
+func (s *KeyedStateStore) VerifEncodeDBKey(subjectKey []byte, namespace string, data []byte) []byte {
+	return s.encodeDBKey(subjectKey, namespace, data)
+}
+
+func (s *KeyedStateStore) VerifEncodeSubjectKey(subjectKey []byte) []byte {
+	return s.encodeSubjectKey(subjectKey)
+}
+
+func (s *TimerStore) VerifEncodeTimerKey(subjectKey []byte, t time.Time) []byte {
+	_, key := s.encodeTimerKey(subjectKey, t)
+	return key
+}
+
+func VerifNewOperatorPartition(r partitioning.KeyGroupRange) *OperatorPartition {
+	return newOperatorPartition(r, nil)
+}
